@@ -1716,7 +1716,16 @@ class Engine(object):
                 if isinstance(a, (types.FunctionType,)):
                     return PBound(obj, name)
                 if isinstance(a, property):
-                    raise Unsupported('property %s' % name)
+                    # a property getter of the same class: inlined (its body is part of the verified text)
+                    from .. import scratch as _scratch
+                    owner = [k for k in cls.__mro__ if name in vars(k)][0]
+                    pnode, _, _ = load_function(owner.__module__, owner.__qualname__ + '.' + name, _scratch.scratch_src())
+                    saved = self.module
+                    self.module = importlib.import_module(owner.__module__)
+                    try:
+                        return self.call_closure(PFunc(pnode, Frame(), name), [obj], {})
+                    finally:
+                        self.module = saved
                 return a
             raise PyRaise(PExc(AttributeError, tag=name))
         if isinstance(obj, (PList, PDict, PSet, SStr, SSeq, SInt, PGen, SEnc)):
